@@ -23,6 +23,9 @@ Print Assumptions entry_at_limit_rejected.
 Theorem entry_big_size : forall e, size_checked e = size_checked_len e (nlen (e_cmd e)).
 Proof. exact size_checked_len_eq. Qed.
 Print Assumptions entry_big_size.
+Theorem entry_big_upper : forall e, size_upper_limit e = size_upper_limit_len (nlen (e_cmd e)).
+Proof. exact size_upper_limit_len_eq. Qed.
+Print Assumptions entry_big_upper.
 Theorem entry_big_encoding : forall e, e_cmd e <> [] ->
   encode e = encode_head e (nlen (e_cmd e)) ++ e_cmd e ++ [127].
 Proof. exact encode_head_split. Qed.
